@@ -692,14 +692,37 @@ def r7(rr, repo):
         ret = next(x for x in blk.body if isinstance(x, ast.Return))
         svc = [c for st_ in blk.body[:blk.body.index(ret)] for c in q.calls_in(st_) if isinstance(c.func, ast.Attribute) and U(c.func.value) == 'self.sender' and c.func.attr in ('poll', 'send')]
         extra = [[U(t) for t, pol in q.guards_of(c, stop=blk)] for c in svc]
+        # ... or through MQ's own poll(), which must do just that whenever there is a sender
+        own = [c for st_ in blk.body[:blk.body.index(ret)] for c in q.calls_in(st_) if U(c.func) == 'self.poll']
+        if own:
+            _, mqpoll = repo.find(f'{MQF}::MQ.poll')
+            inner = [c for c in q.calls_in(mqpoll) if U(c.func) == 'self.sender.poll']
+            if len(inner) == 1 and [U(t) for t, pol in q.guards_of(inner[0], stop=mqpoll) if pol] in ([], ['self.sender is not None']) and not any(isinstance(x, (ast.Return, ast.Raise)) for x in walk_scope(mqpoll)):
+                svc += own
+                extra += [[U(t) for t, pol in q.guards_of(c, stop=blk)] for c in own]
+                uses_poll = True
+            else:
+                rr.ob('MQ.poll services the sender whenever there is one', False, mqm_, mqpoll, witness=f'{len(inner)} calls of self.sender.poll', key='mq-poll-services-sender')
         ok = bool(svc) and all(g in ([], ['self.sender is not None']) for g in extra)
-        uses_poll |= any(c.func.attr == 'poll' for c in svc)
+        uses_poll |= any(c.func.attr == 'poll' and U(c.func.value) == 'self.sender' for c in svc)
         rr.ob('MQ.send: the return that publishes nothing (frames is None) still services the request sockets of the sender, whenever there is a sender', ok, mqm_, ret,
               witness=f'sender calls before the return: {[U(c)[:40] for c in svc] or "none"}; conditions: {extra}', key='none-path-services-requests')
         for c in svc:
             if c.func.attr == 'send':
                 a0 = c.args[0] if c.args else None
                 rr.ob('the service call can publish nothing (its callable yields None)', isinstance(a0, ast.Lambda) and isinstance(a0.body, ast.Constant) and a0.body.value is None, mqm_, c, witness=U(c)[:80], key='service-publishes-nothing')
+    # ... and so does a filter that is waiting for its sources: every round of the receive wait loop of loop_once services the outputs
+    fmod_, lo = repo.find(f'{FILTER}::Filter.loop_once')
+    waits = [n for n in walk_scope(lo) if isinstance(n, ast.While) and 'self.mq.recv(' in U(n.test)]
+    rr.floor('receive wait loops in loop_once', len(waits), 1, fmod_, lo)
+    for w in waits:
+        polls = [c for c in q.calls_in(w, into_functions=False) if U(c.func) in ('self.mq.poll', 'self.mq.sender.poll')]
+        okw = bool(polls) and any(not q.guards_of(c, stop=w) and q.enclosing_stmt(c) in w.body for c in polls)
+        conts = [n for n in ast.walk(w) if isinstance(n, ast.Continue)]      # a `continue` before the poll would skip it round after round (a break / return only on the last one)
+        okw = okw and not any(n.lineno < min(c.lineno for c in polls) for n in conts)
+        rr.ob('loop_once: while waiting for its sources a filter services the request sockets of its outputs on every round, so a downstream exit is heard', okw, fmod_, w,
+              witness=f'poll calls in the wait loop: {[U(c)[:30] for c in polls] or "none"}', key='recv-wait-services-outputs')
+        uses_poll |= bool(polls)
     if uses_poll:
         _, pollfn = repo.find(f'{Z}::ZMQSender.poll')
         pc = [c for c in q.calls_in(pollfn) if U(c.func) == 'self.send']
